@@ -1,6 +1,8 @@
 package main
 
 import (
+	"go/parser"
+	"golang.org/x/tools/go/ast/astutil"
 	"bytes"
 	_ "embed"
 	"fmt"
@@ -76,11 +78,17 @@ type inliner struct {
 	// function literals bound once to a local by an earlier expansion (`fn := (func(T))(func(t T) {...})`): calls of
 	// the local are expanded too, so that a helper taking a callback is as transparent as one that does not
 	litVars map[*types.Var]*litVar
+	// helpers that use defer: always inlinable in tail position (`return h()`: the deferred calls run at the same point
+	// either way); elsewhere only when the defers are simple and come first (they are then run after the expansion)
+	hasDefer    map[*types.Func]bool
+	simpleDefer map[*types.Func]bool
 	// calls of helpers that were duplicated into a caller by copying a body that still contained them
 	extraUses map[*types.Func]int
 }
 
 type litVar struct {
+	kind     string   // "lit": function literal; "mexpr": method expression (*T).M; "func": declared function
+	expr     ast.Expr // for mexpr / func
 	lit      *ast.FuncLit
 	p        *packages.Package
 	assign   *ast.AssignStmt
@@ -105,7 +113,7 @@ type calleeShape struct {
 // module packages, or nil when there is nothing to inline.
 func flattenHelpers(pkgs []*packages.Package) (map[string][]byte, []string) {
 	in := &inliner{pkgs: pkgs, decls: map[*types.Func]*ast.FuncDecl{}, declPkg: map[*types.Func]*packages.Package{}, declFil: map[*types.Func]*ast.File{},
-		helpers: map[*types.Func]bool{}, inlined: map[string]int{}, inlinedObj: map[*types.Func]int{}, skipped: map[string]string{}, changed: map[string]*ast.File{}, litVars: map[*types.Var]*litVar{}, extraUses: map[*types.Func]int{}}
+		helpers: map[*types.Func]bool{}, inlined: map[string]int{}, inlinedObj: map[*types.Func]int{}, skipped: map[string]string{}, changed: map[string]*ast.File{}, litVars: map[*types.Var]*litVar{}, extraUses: map[*types.Func]int{}, hasDefer: map[*types.Func]bool{}, simpleDefer: map[*types.Func]bool{}}
 	if len(pkgs) == 0 {
 		return nil, nil
 	}
@@ -141,7 +149,14 @@ func flattenHelpers(pkgs []*packages.Package) (map[string][]byte, []string) {
 		in.helpers[obj] = true
 	}
 	in.collectLitVars()
-	if len(in.helpers) == 0 && len(in.litVars) == 0 {
+	for _, p := range pkgs {
+		if strings.HasPrefix(p.PkgPath, modulePath) {
+			for _, f := range p.Syntax {
+				in.unrollLiteralRanges(p, f)
+			}
+		}
+	}
+	if len(in.helpers) == 0 && len(in.litVars) == 0 && len(in.changed) == 0 {
 		var notes []string
 		for n, w := range in.skipped {
 			notes = append(notes, fmt.Sprintf("new function %s not inlined: %s", n, w))
@@ -157,6 +172,7 @@ func flattenHelpers(pkgs []*packages.Package) (map[string][]byte, []string) {
 			in.rewriteFile(p, f)
 		}
 	}
+	in.rewriteFuncValueCalls()
 	in.dropBoundLiterals()
 	// a helper all of whose uses were inlined is dropped from the analysed program (it would otherwise still
 	// show up in whole-module inventories as a dead copy of the code it was extracted from)
@@ -222,8 +238,29 @@ func stripPos(d ast.Decl) ast.Decl { return copyNode(d).(ast.Decl) }
 
 func (in *inliner) notInlinable(obj *types.Func, fd *ast.FuncDecl) string {
 	sig := obj.Type().(*types.Signature)
-	if sig.TypeParams().Len() > 0 || sig.RecvTypeParams().Len() > 0 {
-		return "generic"
+	if sig.RecvTypeParams().Len() > 0 {
+		return "method of a generic type"
+	}
+	if sig.TypeParams().Len() > 0 {
+		// a type parameter's name must not also name something else inside the function (substitution is by name)
+		names := map[string]bool{}
+		for i := 0; i < sig.TypeParams().Len(); i++ {
+			names[sig.TypeParams().At(i).Obj().Name()] = true
+		}
+		clash := false
+		ast.Inspect(fd, func(n ast.Node) bool {
+			if id, ok := n.(*ast.Ident); ok && names[id.Name] {
+				if def := in.declPkg[obj].TypesInfo.Defs[id]; def != nil {
+					if _, isTN := def.(*types.TypeName); !isTN {
+						clash = true
+					}
+				}
+			}
+			return true
+		})
+		if clash {
+			return "generic, with a type parameter name reused for something else"
+		}
 	}
 	why := ""
 	var inspect func(n ast.Node) bool
@@ -232,7 +269,7 @@ func (in *inliner) notInlinable(obj *types.Func, fd *ast.FuncDecl) string {
 		case *ast.FuncLit:
 			return false
 		case *ast.DeferStmt:
-			why = "uses defer"
+			in.hasDefer[obj] = true
 		case *ast.LabeledStmt:
 			why = "has labels"
 		case *ast.BranchStmt:
@@ -254,6 +291,9 @@ func (in *inliner) notInlinable(obj *types.Func, fd *ast.FuncDecl) string {
 	if why != "" {
 		return why
 	}
+	if in.hasDefer[obj] {
+		in.simpleDefer[obj] = simpleDefers(fd.Body)
+	}
 	// results must be nameable: fine (type expressions are copied). Named results shadowed inside closures are not handled specially.
 	return ""
 }
@@ -272,6 +312,72 @@ func (in *inliner) calleeOf(p *packages.Package, call *ast.CallExpr) *types.Func
 	return fn
 }
 
+// simpleDefers: every defer of the body is a top-level statement, no return can happen before the last of them, and
+// the deferred calls have nothing to evaluate but names (so running them after the expansion is the same thing).
+func simpleDefers(body *ast.BlockStmt) bool {
+	last := -1
+	for i, st := range body.List {
+		if _, ok := st.(*ast.DeferStmt); ok {
+			last = i
+		}
+	}
+	ok := true
+	n := 0
+	ast.Inspect(body, func(m ast.Node) bool {
+		switch m.(type) {
+		case *ast.FuncLit:
+			return false
+		case *ast.DeferStmt:
+			n++
+		}
+		return true
+	})
+	top := 0
+	for i, st := range body.List {
+		d, isDefer := st.(*ast.DeferStmt)
+		if isDefer {
+			top++
+			var simple func(e ast.Expr) bool
+			simple = func(e ast.Expr) bool {
+				switch x := e.(type) {
+				case *ast.Ident, *ast.BasicLit:
+					return true
+				case *ast.SelectorExpr:
+					return simple(x.X)
+				case *ast.ParenExpr:
+					return simple(x.X)
+				case *ast.StarExpr:
+					return simple(x.X)
+				case *ast.UnaryExpr:
+					return x.Op == token.AND && simple(x.X)
+				}
+				return false
+			}
+			if !simple(d.Call.Fun) {
+				ok = false
+			}
+			for _, a := range d.Call.Args {
+				if !simple(a) {
+					ok = false
+				}
+			}
+			continue
+		}
+		if i < last {
+			ast.Inspect(st, func(m ast.Node) bool {
+				switch m.(type) {
+				case *ast.FuncLit:
+					return false
+				case *ast.ReturnStmt:
+					ok = false
+				}
+				return true
+			})
+		}
+	}
+	return ok && top == n
+}
+
 // shapeOf: the inlinable callee of a call, if any.
 func (in *inliner) shapeOf(p *packages.Package, call *ast.CallExpr) *calleeShape {
 	if fn := in.calleeOf(p, call); fn != nil {
@@ -287,7 +393,7 @@ func (in *inliner) shapeOf(p *packages.Package, call *ast.CallExpr) *calleeShape
 	}
 	v, _ := p.TypesInfo.Uses[id].(*types.Var)
 	lv := in.litVars[v]
-	if lv == nil || lv.p != p {
+	if lv == nil || lv.p != p || lv.kind != "lit" {
 		return nil
 	}
 	// the literal must not be expanded inside itself, and what it refers to must mean the same at the call site
@@ -364,16 +470,31 @@ func (in *inliner) collectLitVars() {
 					if _, isFT := par.X.(*ast.FuncType); !isFT {
 						continue
 					}
-					lit, ok := conv.Args[0].(*ast.FuncLit)
-					if !ok {
-						continue
-					}
 					id, ok := as.Lhs[i].(*ast.Ident)
 					if !ok {
 						continue
 					}
 					v, _ := p.TypesInfo.Defs[id].(*types.Var)
 					if v == nil {
+						continue
+					}
+					lit, ok := conv.Args[0].(*ast.FuncLit)
+					if !ok {
+						// a method expression or a declared function handed over as the callback
+						switch x := ast.Unparen(conv.Args[0]).(type) {
+						case *ast.SelectorExpr:
+							if sel, isSel := p.TypesInfo.Selections[x]; isSel {
+								if sel.Kind() == types.MethodExpr {
+									in.litVars[v] = &litVar{kind: "mexpr", expr: x, p: p, assign: as, idx: i}
+								}
+							} else if fo, isFn := p.TypesInfo.Uses[x.Sel].(*types.Func); isFn && fo.Type().(*types.Signature).Recv() == nil {
+								in.litVars[v] = &litVar{kind: "func", expr: x, p: p, assign: as, idx: i}
+							}
+						case *ast.Ident:
+							if fo, isFn := p.TypesInfo.Uses[x].(*types.Func); isFn && fo.Type().(*types.Signature).Recv() == nil && fo.Parent() == p.Types.Scope() {
+								in.litVars[v] = &litVar{kind: "func", expr: x, p: p, assign: as, idx: i}
+							}
+						}
 						continue
 					}
 					// the literal itself must be safe to splice in
@@ -396,7 +517,7 @@ func (in *inliner) collectLitVars() {
 						return !bad
 					})
 					if !bad {
-						in.litVars[v] = &litVar{lit: lit, p: p, assign: as, idx: i}
+						in.litVars[v] = &litVar{kind: "lit", lit: lit, p: p, assign: as, idx: i}
 					}
 				}
 				return true
@@ -437,6 +558,66 @@ func (in *inliner) collectLitVars() {
 	}
 }
 
+// rewriteFuncValueCalls: `op := (func(*T) error)((*T).M); ... op(x)` becomes `x.M()`, and a bound declared function is
+// called by its own name.
+func (in *inliner) rewriteFuncValueCalls() {
+	for _, p := range in.pkgs {
+		if !strings.HasPrefix(p.PkgPath, modulePath) {
+			continue
+		}
+		for _, f := range p.Syntax {
+			ast.Inspect(f, func(n ast.Node) bool {
+				call, ok := n.(*ast.CallExpr)
+				if !ok {
+					return true
+				}
+				id, ok := ast.Unparen(call.Fun).(*ast.Ident)
+				if !ok {
+					return true
+				}
+				v, _ := p.TypesInfo.Uses[id].(*types.Var)
+				lv := in.litVars[v]
+				if lv == nil || lv.kind == "lit" || lv.p != p {
+					return true
+				}
+				// the names in the bound expression must mean the same here
+				scope := p.Types.Scope().Innermost(call.Pos())
+				okScope := scope != nil
+				ast.Inspect(lv.expr, func(m ast.Node) bool {
+					if x, isId := m.(*ast.Ident); isId && okScope {
+						if obj := p.TypesInfo.Uses[x]; obj != nil {
+							if _, isPkg := obj.(*types.PkgName); isPkg || obj.Parent() == p.Types.Scope() {
+								if _, found := scope.LookupParent(x.Name, call.Pos()); found != obj {
+									okScope = false
+								}
+							}
+						}
+					}
+					return true
+				})
+				if !okScope {
+					return true
+				}
+				switch lv.kind {
+				case "mexpr":
+					if len(call.Args) == 0 || call.Ellipsis.IsValid() {
+						return true
+					}
+					sel := lv.expr.(*ast.SelectorExpr)
+					call.Fun = &ast.SelectorExpr{X: &ast.ParenExpr{X: call.Args[0]}, Sel: ast.NewIdent(sel.Sel.Name)}
+					call.Args = call.Args[1:]
+				case "func":
+					call.Fun = copyExpr(lv.expr)
+				}
+				lv.expanded++
+				in.inlined["callback bound to "+v.Name()]++
+				in.changed[in.fset.Position(f.Pos()).Filename] = f
+				return true
+			})
+		}
+	}
+}
+
 // dropBoundLiterals: a binding all of whose uses were expanded is neutralised (`_ = 0`), so that the literal does not
 // survive as a dead closure duplicating the code that now stands at its call sites.
 func (in *inliner) dropBoundLiterals() {
@@ -462,6 +643,166 @@ func (in *inliner) dropBoundLiterals() {
 		for _, b := range lv.blanks {
 			b.Rhs = []ast.Expr{zero()}
 		}
+	}
+}
+
+// unrollLiteralRanges: `for _, x := range []T{a, b} { body }` (at most four pure elements, no break/continue of that
+// loop) becomes `{ x := T(a); body } { x := T(b); body }`: an ordered list of alternatives written as a loop reads like
+// the sequence of tests it is. The reference tree has no such loop.
+func (in *inliner) unrollLiteralRanges(p *packages.Package, f *ast.File) {
+	var pure func(e ast.Expr) bool
+	pure = func(e ast.Expr) bool {
+		switch x := e.(type) {
+		case *ast.Ident, *ast.BasicLit:
+			return true
+		case *ast.SelectorExpr:
+			return pure(x.X)
+		case *ast.ParenExpr:
+			return pure(x.X)
+		case *ast.BinaryExpr:
+			return pure(x.X) && pure(x.Y)
+		case *ast.UnaryExpr:
+			return x.Op != token.ARROW && pure(x.X)
+		}
+		return false
+	}
+	unroll := func(rs *ast.RangeStmt) []ast.Stmt {
+		if rs.Tok != token.DEFINE || rs.Value == nil {
+			return nil
+		}
+		if k, ok := rs.Key.(*ast.Ident); !ok || k.Name != "_" {
+			return nil
+		}
+		val, ok := rs.Value.(*ast.Ident)
+		if !ok {
+			return nil
+		}
+		cl, ok := ast.Unparen(rs.X).(*ast.CompositeLit)
+		if !ok || len(cl.Elts) == 0 || len(cl.Elts) > 4 {
+			return nil
+		}
+		at, ok := cl.Type.(*ast.ArrayType)
+		if !ok {
+			return nil
+		}
+		used := map[string]bool{}
+		for _, e := range cl.Elts {
+			if _, isKV := e.(*ast.KeyValueExpr); isKV || !pure(e) {
+				return nil
+			}
+			ast.Inspect(e, func(n ast.Node) bool {
+				if id, ok := n.(*ast.Ident); ok {
+					used[id.Name] = true
+				}
+				return true
+			})
+		}
+		// no break / continue of this loop, no assignment to anything the elements mention, no closure capturing the variable
+		okBody := true
+		var scan func(n ast.Node, inLoop, inSwitch bool)
+		scan = func(n ast.Node, inLoop, inSwitch bool) {
+			ast.Inspect(n, func(m ast.Node) bool {
+				if m == nil || !okBody {
+					return false
+				}
+				switch x := m.(type) {
+				case *ast.FuncLit:
+					okBody = false // the per-iteration variable may be captured
+					return false
+				case *ast.BranchStmt:
+					if x.Label != nil || (x.Tok == token.BREAK && !inLoop && !inSwitch) || (x.Tok == token.CONTINUE && !inLoop) || x.Tok == token.GOTO {
+						okBody = false
+					}
+				case *ast.ForStmt:
+					if m != n {
+						scan(x.Body, true, inSwitch)
+						return false
+					}
+				case *ast.RangeStmt:
+					if m != n {
+						scan(x.Body, true, inSwitch)
+						return false
+					}
+				case *ast.SwitchStmt:
+					if m != n {
+						scan(x.Body, inLoop, true)
+						return false
+					}
+				case *ast.TypeSwitchStmt:
+					if m != n {
+						scan(x.Body, inLoop, true)
+						return false
+					}
+				case *ast.SelectStmt:
+					if m != n {
+						scan(x.Body, inLoop, true)
+						return false
+					}
+				case *ast.LabeledStmt:
+					okBody = false
+				case *ast.AssignStmt:
+					for _, l := range x.Lhs {
+						if id, ok := l.(*ast.Ident); ok && used[id.Name] {
+							okBody = false
+						}
+					}
+				case *ast.IncDecStmt:
+					if id, ok := x.X.(*ast.Ident); ok && used[id.Name] {
+						okBody = false
+					}
+				}
+				return true
+			})
+		}
+		scan(rs.Body, false, false)
+		if !okBody {
+			return nil
+		}
+		var out []ast.Stmt
+		for _, e := range cl.Elts {
+			bind := &ast.AssignStmt{Lhs: []ast.Expr{ast.NewIdent(val.Name)}, Tok: token.DEFINE, Rhs: []ast.Expr{&ast.CallExpr{Fun: &ast.ParenExpr{X: copyExpr(at.Elt)}, Args: []ast.Expr{copyExpr(e)}}}}
+			use := &ast.AssignStmt{Lhs: []ast.Expr{ast.NewIdent("_")}, Tok: token.ASSIGN, Rhs: []ast.Expr{ast.NewIdent(val.Name)}}
+			body := copyNode(rs.Body).(*ast.BlockStmt)
+			out = append(out, &ast.BlockStmt{List: append([]ast.Stmt{bind, use}, body.List...)})
+		}
+		return out
+	}
+	var doList func(list []ast.Stmt) ([]ast.Stmt, bool)
+	doList = func(list []ast.Stmt) ([]ast.Stmt, bool) {
+		changed := false
+		var out []ast.Stmt
+		for _, st := range list {
+			if rs, ok := st.(*ast.RangeStmt); ok {
+				if repl := unroll(rs); repl != nil {
+					out = append(out, repl...)
+					changed = true
+					continue
+				}
+			}
+			out = append(out, st)
+		}
+		return out, changed
+	}
+	changed := false
+	ast.Inspect(f, func(n ast.Node) bool {
+		switch x := n.(type) {
+		case *ast.BlockStmt:
+			var ch bool
+			x.List, ch = doList(x.List)
+			changed = changed || ch
+		case *ast.CaseClause:
+			var ch bool
+			x.Body, ch = doList(x.Body)
+			changed = changed || ch
+		case *ast.CommClause:
+			var ch bool
+			x.Body, ch = doList(x.Body)
+			changed = changed || ch
+		}
+		return true
+	})
+	if changed {
+		in.changed[in.fset.Position(f.Pos()).Filename] = f
 	}
 }
 
@@ -772,6 +1113,10 @@ func (in *inliner) inlineInStmt(p *packages.Package, f *ast.File, s ast.Stmt) ([
 				}
 			}
 		}
+		if sh.fn != nil && in.hasDefer[sh.fn] && !tail && !in.simpleDefer[sh.fn] {
+			in.skipped[sh.name] = "uses defer in a way that cannot be expanded outside a tail call"
+			return nil, nil, false
+		}
 		pre, outs, ok := in.expand(p, f, call, sh, tail)
 		if !ok {
 			return nil, nil, false
@@ -883,6 +1228,73 @@ func (in *inliner) expand(p *packages.Package, f *ast.File, call *ast.CallExpr, 
 		}
 		return true
 	})
+	// generic helper: the type arguments of this call replace the type parameters (by name) in everything copied
+	var typeSubst map[string]ast.Expr
+	if sh.fn != nil && sh.sig.TypeParams().Len() > 0 {
+		var fid *ast.Ident
+		switch x := ast.Unparen(call.Fun).(type) {
+		case *ast.Ident:
+			fid = x
+		case *ast.SelectorExpr:
+			fid = x.Sel
+		}
+		inst, okInst := p.TypesInfo.Instances[fid]
+		if fid == nil || !okInst || inst.TypeArgs.Len() != sh.sig.TypeParams().Len() {
+			in.skipped[fname] = "generic call whose type arguments could not be determined"
+			return nil, nil, false
+		}
+		typeSubst = map[string]ast.Expr{}
+		for i := 0; i < inst.TypeArgs.Len(); i++ {
+			failed := false
+			str := types.TypeString(inst.TypeArgs.At(i), func(other *types.Package) string {
+				if other == p.Types {
+					return ""
+				}
+				for _, imp := range f.Imports {
+					if strings.Trim(imp.Path.Value, `"`) == other.Path() {
+						if imp.Name != nil {
+							if imp.Name.Name == "." || imp.Name.Name == "_" {
+								failed = true
+							}
+							return imp.Name.Name
+						}
+						return other.Name()
+					}
+				}
+				if !ensureImport(f, other.Name(), other.Path()) {
+					failed = true
+				}
+				return other.Name()
+			})
+			e, perr := parser.ParseExpr(str)
+			if perr != nil || failed {
+				in.skipped[fname] = "generic call with a type argument that cannot be written at the call site: " + str
+				return nil, nil, false
+			}
+			typeSubst[sh.sig.TypeParams().At(i).Obj().Name()] = copyExpr(e)
+		}
+	}
+	substTypes := func(n ast.Node) ast.Node {
+		if typeSubst == nil || n == nil {
+			return n
+		}
+		return astutil.Apply(n, func(c *astutil.Cursor) bool {
+			if id, ok := c.Node().(*ast.Ident); ok {
+				if e, ok := typeSubst[id.Name]; ok {
+					if _, isSelSel := c.Parent().(*ast.SelectorExpr); isSelSel && c.Name() == "Sel" {
+						return true
+					}
+					switch e.(type) {
+					case *ast.StarExpr, *ast.FuncType, *ast.ChanType:
+						c.Replace(&ast.ParenExpr{X: copyExpr(e)})
+					default:
+						c.Replace(copyExpr(e))
+					}
+				}
+			}
+			return true
+		}, nil)
+	}
 	inlineSeq++
 	in.n = inlineSeq
 	label := fmt.Sprintf("_inl%d", in.n)
@@ -902,7 +1314,7 @@ func (in *inliner) expand(p *packages.Package, f *ast.File, call *ast.CallExpr, 
 			for j := 0; j < n; j++ {
 				name := fmt.Sprintf("%s_r%d", label, ri)
 				if !tail {
-					pre = append(pre, &ast.DeclStmt{Decl: &ast.GenDecl{Tok: token.VAR, Specs: []ast.Spec{&ast.ValueSpec{Names: []*ast.Ident{ast.NewIdent(name)}, Type: copyExpr(fld.Type)}}}})
+					pre = append(pre, &ast.DeclStmt{Decl: &ast.GenDecl{Tok: token.VAR, Specs: []ast.Spec{&ast.ValueSpec{Names: []*ast.Ident{ast.NewIdent(name)}, Type: substTypes(copyExpr(fld.Type)).(ast.Expr)}}}})
 					outs = append(outs, ast.NewIdent(name))
 				}
 				if len(fld.Names) > 0 {
@@ -964,7 +1376,7 @@ func (in *inliner) expand(p *packages.Package, f *ast.File, call *ast.CallExpr, 
 		}
 		for _, nm := range names {
 			if ell, ok := fld.Type.(*ast.Ellipsis); ok {
-				sliceT := &ast.ArrayType{Elt: copyExpr(ell.Elt)}
+				sliceT := &ast.ArrayType{Elt: substTypes(copyExpr(ell.Elt)).(ast.Expr)}
 				if call.Ellipsis.IsValid() {
 					bind(nm.Name, sliceT, copyExpr(call.Args[ai]))
 				} else {
@@ -981,7 +1393,7 @@ func (in *inliner) expand(p *packages.Package, f *ast.File, call *ast.CallExpr, 
 				in.skipped[fname] = "argument count mismatch (call of a multi-value expression)"
 				return nil, nil, false
 			}
-			bind(nm.Name, copyExpr(fld.Type), copyExpr(call.Args[ai]))
+			bind(nm.Name, substTypes(copyExpr(fld.Type)).(ast.Expr), copyExpr(call.Args[ai]))
 			ai++
 		}
 	}
@@ -996,12 +1408,12 @@ func (in *inliner) expand(p *packages.Package, f *ast.File, call *ast.CallExpr, 
 				if nm.Name == "_" {
 					continue
 				}
-				body = append(body, &ast.DeclStmt{Decl: &ast.GenDecl{Tok: token.VAR, Specs: []ast.Spec{&ast.ValueSpec{Names: []*ast.Ident{ast.NewIdent(nm.Name)}, Type: copyExpr(fld.Type)}}}})
+				body = append(body, &ast.DeclStmt{Decl: &ast.GenDecl{Tok: token.VAR, Specs: []ast.Spec{&ast.ValueSpec{Names: []*ast.Ident{ast.NewIdent(nm.Name)}, Type: substTypes(copyExpr(fld.Type)).(ast.Expr)}}}})
 				body = append(body, &ast.AssignStmt{Lhs: []ast.Expr{ast.NewIdent("_")}, Tok: token.ASSIGN, Rhs: []ast.Expr{ast.NewIdent(nm.Name)}})
 			}
 		}
 	}
-	cb := copyNode(fd.Body).(*ast.BlockStmt)
+	cb := substTypes(copyNode(fd.Body)).(*ast.BlockStmt)
 	// labels and temporaries of earlier expansions inside the copied body must stay unique in the caller
 	ast.Inspect(cb, func(n ast.Node) bool {
 		if id, ok := n.(*ast.Ident); ok && strings.HasPrefix(id.Name, "_inl") {
@@ -1015,11 +1427,25 @@ func (in *inliner) expand(p *packages.Package, f *ast.File, call *ast.CallExpr, 
 		body = append(body, cb.List...)
 		return []ast.Stmt{&ast.BlockStmt{List: body}}, nil, true
 	}
+	// simple top-level defers run when the helper returns, i.e. right after the expansion (last one first)
+	var after []ast.Stmt
+	if sh.fn != nil && in.hasDefer[sh.fn] {
+		var keep []ast.Stmt
+		for _, st := range cb.List {
+			if d, ok := st.(*ast.DeferStmt); ok {
+				after = append([]ast.Stmt{&ast.ExprStmt{X: d.Call}}, after...)
+				continue
+			}
+			keep = append(keep, st)
+		}
+		cb.List = keep
+	}
 	rewriteReturns(cb, label, outs, resultNames)
 	body = append(body, cb.List...)
 	body = append(body, &ast.BranchStmt{Tok: token.BREAK, Label: ast.NewIdent(label)})
 	loop := &ast.LabeledStmt{Label: ast.NewIdent(label), Stmt: &ast.ForStmt{Body: &ast.BlockStmt{List: body}}}
 	pre = append(pre, loop)
+	pre = append(pre, after...)
 	return pre, outs, true
 }
 
